@@ -1,7 +1,332 @@
 package main
 
-import "github.com/gogpu/naga/zverif/proto"
+import (
+	"fmt"
+	"strings"
 
-// composerPrograms returns generated WGSL programs (feature swarm); see
-// composer_gen.go.  Placeholder until the composer is written.
-func composerPrograms(seed uint64) []proto.Source { return nil }
+	"github.com/gogpu/naga/zverif/proto"
+)
+
+// Feature-swarm composer (DESIGN.md §3.6): assembles WGSL programs with 1-3
+// entry points of mixed stages from a library of parameterised fragments, a
+// random subset per program.  The aim is shapes the corpus has few of: two or
+// more entries at each map-walking site (several bounds-checked buffers,
+// several texture x sampler pairs, several wrapped div/mod helpers, many named
+// lets), locals stored inside nested if/loop/switch, struct locals, helper call
+// chains, overrides used in nested blocks, derived overrides, override-sized
+// workgroups and global initialisers.
+//
+// A generated program enters the workload only if the compiler's own front end
+// lowers it (checked by the worker's describe mode); its pristine references
+// may be successes or deterministic failures, both are fine.
+
+const (
+	stVertex   = 1
+	stFragment = 2
+	stCompute  = 4
+	stAny      = stVertex | stFragment | stCompute
+)
+
+type fragInst struct {
+	globals string // module-scope declarations
+	body    string // statements for an entry point body; may use acc (f32 var) and idx (u32 let)
+	stages  int
+}
+
+type compCtx struct {
+	r       *rng
+	binding [3]int
+	n       int
+	hasPush bool
+	ovN     int
+}
+
+func (c *compCtx) bind() string {
+	g := c.r.intn(3)
+	b := c.binding[g]
+	c.binding[g]++
+	return fmt.Sprintf("@group(%d) @binding(%d)", g, b)
+}
+
+type fragGen func(c *compCtx, k int) fragInst
+
+var fragLib = []fragGen{
+	// 0: runtime-sized storage buffer, dynamic index, arrayLength
+	func(c *compCtx, k int) fragInst {
+		return fragInst{
+			globals: fmt.Sprintf("%s var<storage, read_write> sbuf%d: array<f32>;\n", c.bind(), k),
+			body:    fmt.Sprintf("sbuf%d[idx] = sbuf%d[idx + 1u] * 2.0 + f32(arrayLength(&sbuf%d));\nacc += sbuf%d[idx %% 7u];\n", k, k, k, k),
+			stages:  stFragment | stCompute,
+		}
+	},
+	// 1: uniform struct with vector, matrix and fixed array
+	func(c *compCtx, k int) fragInst {
+		return fragInst{
+			globals: fmt.Sprintf("struct U%d { a: vec4<f32>, m: mat4x4<f32>, c: array<vec4<f32>, 4>, n: mat2x2<f32> }\n%s var<uniform> ub%d: U%d;\n", k, c.bind(), k, k),
+			body:    fmt.Sprintf("acc += ub%d.a.x + ub%d.c[idx %% 4u].y + (ub%d.m * ub%d.a).z + ub%d.n[1].x;\n", k, k, k, k, k),
+			stages:  stAny,
+		}
+	},
+	// 2: two textures, one sampler (several combined samplers in GLSL)
+	func(c *compCtx, k int) fragInst {
+		return fragInst{
+			globals: fmt.Sprintf("%s var texA%d: texture_2d<f32>;\n%s var texB%d: texture_2d<f32>;\n%s var smp%d: sampler;\n", c.bind(), k, c.bind(), k, c.bind(), k),
+			body: fmt.Sprintf("acc += textureSampleLevel(texA%d, smp%d, vec2<f32>(0.25, 0.5), 0.0).x;\nacc += textureSampleLevel(texB%d, smp%d, vec2<f32>(acc, 0.5), 1.0).y;\nacc += f32(textureDimensions(texA%d).x) + f32(textureNumLevels(texB%d));\n",
+				k, k, k, k, k, k),
+			stages: stAny,
+		}
+	},
+	// 3: implicit-derivative sampling + second sampler (fragment only)
+	func(c *compCtx, k int) fragInst {
+		return fragInst{
+			globals: fmt.Sprintf("%s var texC%d: texture_2d<f32>;\n%s var smpA%d: sampler;\n%s var smpB%d: sampler;\n", c.bind(), k, c.bind(), k, c.bind(), k),
+			body:    fmt.Sprintf("acc += textureSample(texC%d, smpA%d, vec2<f32>(acc, 0.5)).x + textureSample(texC%d, smpB%d, vec2<f32>(0.5, acc)).y + dpdx(acc);\n", k, k, k, k),
+			stages:  stFragment,
+		}
+	},
+	// 4: storage texture write + textureLoad
+	func(c *compCtx, k int) fragInst {
+		return fragInst{
+			globals: fmt.Sprintf("%s var stex%d: texture_storage_2d<rgba8unorm, write>;\n%s var ltex%d: texture_2d<u32>;\n", c.bind(), k, c.bind(), k),
+			body:    fmt.Sprintf("textureStore(stex%d, vec2<i32>(i32(idx), 2), vec4<f32>(acc));\nacc += f32(textureLoad(ltex%d, vec2<i32>(1, i32(idx)), 0).x);\n", k, k),
+			stages:  stFragment | stCompute,
+		}
+	},
+	// 5: integer division / remainder in several types (wrapped helpers)
+	func(c *compCtx, k int) fragInst {
+		return fragInst{
+			body: fmt.Sprintf("let qi%d = i32(idx) / (i32(idx) - 3);\nlet ri%d = i32(idx) %% (qi%d + 1);\nlet qu%d = idx / (idx + 1u);\nlet ru%d = idx %% 5u;\nlet qv%d = vec2<i32>(qi%d, ri%d) / vec2<i32>(2, ri%d);\nlet rv%d = vec3<u32>(qu%d, ru%d, idx) %% vec3<u32>(3u, 4u, ru%d + 1u);\nacc += f32(qi%d + ri%d + qv%d.x) + f32(qu%d + ru%d + rv%d.z) + f32(-qi%d) + f32(abs(ri%d));\n",
+				k, k, k, k, k, k, k, k, k, k, k, k, k, k, k, k, k, k, k, k, k),
+			stages: stAny,
+		}
+	},
+	// 6: local variable stored inside nested if / loop / switch
+	func(c *compCtx, k int) fragInst {
+		return fragInst{
+			body: fmt.Sprintf("var tmp%d: f32 = 0.0;\nfor (var i%d = 0u; i%d < 4u; i%d++) {\n  if (i%d == idx) { tmp%d += 1.0; } else { tmp%d *= 0.5; }\n}\nswitch (idx) {\n  case 0u: { tmp%d = 1.0; }\n  case 1u, 2u: { tmp%d = 2.0; }\n  default: { tmp%d += 3.0; }\n}\nacc += tmp%d;\n",
+				k, k, k, k, k, k, k, k, k, k, k),
+			stages: stAny,
+		}
+	},
+	// 7: struct local with array member, dynamic index
+	func(c *compCtx, k int) fragInst {
+		return fragInst{
+			globals: fmt.Sprintf("struct SL%d { a: f32, b: array<f32, 2>, c: vec3<f32> }\n", k),
+			body:    fmt.Sprintf("var sl%d: SL%d;\nsl%d.a = acc;\nsl%d.b[1] = 2.0;\nsl%d.c = vec3<f32>(acc, 1.0, 2.0);\nacc += sl%d.b[idx %% 2u] + sl%d.c.z;\n", k, k, k, k, k, k, k),
+			stages:  stAny,
+		}
+	},
+	// 8: helper call chain
+	func(c *compCtx, k int) fragInst {
+		return fragInst{
+			globals: fmt.Sprintf("fn hA%d(x: f32) -> f32 { return x * 2.0; }\nfn hB%d(x: f32, n: u32) -> f32 {\n  var r = hA%d(x);\n  if (n > 2u) { r = r + hA%d(r); }\n  return r + 1.0;\n}\n", k, k, k, k),
+			body:    fmt.Sprintf("acc += hB%d(acc, idx);\n", k),
+			stages:  stAny,
+		}
+	},
+	// 9: helper taking a pointer
+	func(c *compCtx, k int) fragInst {
+		return fragInst{
+			globals: fmt.Sprintf("fn hP%d(p: ptr<function, f32>, v: f32) { *p = *p + v; }\n", k),
+			body:    fmt.Sprintf("hP%d(&acc, 0.5);\n", k),
+			stages:  stAny,
+		}
+	},
+	// 10: workgroup memory, atomics, barrier (compute only)
+	func(c *compCtx, k int) fragInst {
+		return fragInst{
+			globals: fmt.Sprintf("var<workgroup> wg%d: array<atomic<u32>, 4>;\nvar<workgroup> wf%d: array<f32, 8>;\n", k, k),
+			body:    fmt.Sprintf("atomicAdd(&wg%d[idx %% 4u], 1u);\nwf%d[idx %% 8u] = acc;\nworkgroupBarrier();\nacc += f32(atomicLoad(&wg%d[0])) + wf%d[(idx + 1u) %% 8u];\n", k, k, k, k),
+			stages:  stCompute,
+		}
+	},
+	// 11: private globals with initialisers
+	func(c *compCtx, k int) fragInst {
+		return fragInst{
+			globals: fmt.Sprintf("var<private> pv%d: f32 = 1.5;\nvar<private> pa%d: array<i32, 3> = array<i32, 3>(1, 2, 3);\n", k, k),
+			body:    fmt.Sprintf("pv%d = pv%d + acc;\nacc += pv%d + f32(pa%d[idx %% 3u]);\n", k, k, k, k),
+			stages:  stAny,
+		}
+	},
+	// 12: many named lets
+	func(c *compCtx, k int) fragInst {
+		var b strings.Builder
+		prev := "acc"
+		for i := 0; i < 5; i++ {
+			fmt.Fprintf(&b, "let n%d_%d = %s * %d.0 + 1.0;\n", k, i, prev, i+2)
+			prev = fmt.Sprintf("n%d_%d", k, i)
+		}
+		fmt.Fprintf(&b, "acc += %s;\n", prev)
+		return fragInst{body: b.String(), stages: stAny}
+	},
+	// 13: math builtins with helper functions in some back ends
+	func(c *compCtx, k int) fragInst {
+		return fragInst{
+			body: fmt.Sprintf("let mf%d = modf(acc + 1.5);\nlet fr%d = frexp(acc + 3.0);\nlet eb%d = extractBits(idx, 3u, 4u);\nlet ib%d = insertBits(idx, 5u, 1u, 3u);\nlet ci%d = i32(acc * 100.0);\nlet cu%d = u32(acc + 7.0);\nacc += mf%d.fract + mf%d.whole + fr%d.fract + f32(fr%d.exp) + f32(eb%d + ib%d) + f32(ci%d) + f32(cu%d) + f32(countOneBits(idx)) + f32(firstLeadingBit(ci%d));\n",
+				k, k, k, k, k, k, k, k, k, k, k, k, k, k, k),
+			stages: stAny,
+		}
+	},
+	// 14: storage atomics incl. compare-exchange
+	func(c *compCtx, k int) fragInst {
+		return fragInst{
+			globals: fmt.Sprintf("%s var<storage, read_write> at%d: atomic<i32>;\n%s var<storage, read_write> au%d: array<atomic<u32>, 4>;\n", c.bind(), k, c.bind(), k),
+			body:    fmt.Sprintf("let old%d = atomicMax(&at%d, i32(idx));\nlet cx%d = atomicCompareExchangeWeak(&au%d[idx %% 4u], 1u, idx);\nif (cx%d.exchanged) { acc += f32(old%d) + f32(cx%d.old_value); }\n", k, k, k, k, k, k, k),
+			stages:  stFragment | stCompute,
+		}
+	},
+	// 15: const array, dynamic index, while loop with continuing
+	func(c *compCtx, k int) fragInst {
+		return fragInst{
+			globals: fmt.Sprintf("const CA%d = array<f32, 3>(1.0, 2.5, 4.0);\nconst CK%d: u32 = 3u;\n", k, k),
+			body:    fmt.Sprintf("var w%d = 0u;\nloop {\n  if (w%d >= CK%d) { break; }\n  var ca%d = CA%d;\n  acc += ca%d[w%d];\n  continuing { w%d += 1u; }\n}\n", k, k, k, k, k, k, k, k),
+			stages:  stAny,
+		}
+	},
+	// 16: read-only storage struct with nested array of structs
+	func(c *compCtx, k int) fragInst {
+		return fragInst{
+			globals: fmt.Sprintf("struct Item%d { pos: vec3<f32>, w: f32 }\nstruct Items%d { count: u32, items: array<Item%d> }\n%s var<storage, read> ro%d: Items%d;\n", k, k, k, c.bind(), k, k),
+			body:    fmt.Sprintf("if (idx < ro%d.count) { acc += ro%d.items[idx].w + ro%d.items[idx].pos.y; }\n", k, k, k),
+			stages:  stAny,
+		}
+	},
+	// 17: depth texture + comparison sampler
+	func(c *compCtx, k int) fragInst {
+		return fragInst{
+			globals: fmt.Sprintf("%s var dtex%d: texture_depth_2d;\n%s var csmp%d: sampler_comparison;\n", c.bind(), k, c.bind(), k),
+			body:    fmt.Sprintf("acc += textureSampleCompareLevel(dtex%d, csmp%d, vec2<f32>(0.5, 0.5), 0.5);\n", k, k),
+			stages:  stAny,
+		}
+	},
+	// 18: vector/matrix math, select, swizzles
+	func(c *compCtx, k int) fragInst {
+		return fragInst{
+			body: fmt.Sprintf("let v%d = vec3<f32>(acc, 1.0, f32(idx));\nlet m%d = mat3x3<f32>(v%d, v%d.zyx, vec3<f32>(1.0));\nlet sv%d = select(v%d, (m%d * v%d).yzx, vec3<bool>(idx > 1u, true, false));\nacc += dot(sv%d, cross(v%d, sv%d)) + length(sv%d.xy) + clamp(acc, 0.0, 1.0);\n",
+				k, k, k, k, k, k, k, k, k, k, k, k),
+			stages: stAny,
+		}
+	},
+}
+
+// push constants (at most one per module)
+func fragPush(c *compCtx, k int) fragInst {
+	return fragInst{
+		globals: "struct PC { scale: f32, bias: f32 }\nvar<immediate> pc: PC;\n",
+		body:    "acc = acc * pc.scale + pc.bias;\n",
+		stages:  stAny,
+	}
+}
+
+// override fragments. nested=false keeps uses in flat code (no nested block,
+// no pointer-held handle statements).
+func fragOverride(c *compCtx, k int, nested bool) fragInst {
+	var g, b strings.Builder
+	id := 100 + c.ovN*7
+	c.ovN++
+	switch c.r.intn(4) {
+	case 0:
+		fmt.Fprintf(&g, "@id(%d) override ovf%d: f32 = 1.25;\n", id, k)
+	case 1:
+		fmt.Fprintf(&g, "override ovf%d: f32;\n", k) // required
+	case 2:
+		fmt.Fprintf(&g, "@id(%d) override ovf%d: f32;\n", id, k) // required, by id
+	case 3:
+		fmt.Fprintf(&g, "override ovf%d = 2.5;\n", k)
+	}
+	fmt.Fprintf(&g, "override ovu%d: u32 = %du;\n", k, 2+c.r.intn(3))
+	fmt.Fprintf(&g, "override ovb%d: bool = true;\n", k)
+	fmt.Fprintf(&g, "override ovd%d = ovf%d * 2.0;\n", k, k) // derived
+	if c.r.chance(0.5) {
+		fmt.Fprintf(&g, "var<private> gi%d: f32 = ovf%d * 10.0;\n", k, k)
+		fmt.Fprintf(&b, "acc += gi%d;\n", k)
+	}
+	if nested {
+		fmt.Fprintf(&b, "if (ovb%d) {\n  for (var j%d = 0u; j%d < ovu%d; j%d++) {\n    acc += ovf%d * f32(j%d);\n    if (acc > ovd%d) { break; }\n  }\n} else {\n  acc -= ovd%d;\n}\n", k, k, k, k, k, k, k, k, k)
+	} else {
+		fmt.Fprintf(&b, "acc += ovf%d + ovd%d + f32(ovu%d) + select(0.0, 1.0, ovb%d);\n", k, k, k, k)
+	}
+	return fragInst{globals: g.String(), body: b.String(), stages: stAny}
+}
+
+// composeProgram builds one program. withOverrides: 0 none, 1 flat uses only, 2 nested uses.
+func composeProgram(r *rng, name string, withOverrides int) proto.Source {
+	c := &compCtx{r: r}
+	// instantiate a random subset of fragments
+	var frags []fragInst
+	nf := 3 + r.intn(6)
+	k := 0
+	for i := 0; i < nf; i++ {
+		frags = append(frags, fragLib[r.intn(len(fragLib))](c, k))
+		k++
+	}
+	if r.chance(0.3) {
+		frags = append(frags, fragPush(c, k))
+		k++
+	}
+	for i := 0; withOverrides > 0 && i < 1+r.intn(2); i++ {
+		frags = append(frags, fragOverride(c, k, withOverrides == 2))
+		k++
+	}
+	var src strings.Builder
+	for _, f := range frags {
+		src.WriteString(f.globals)
+	}
+	// output sink so that results are observable
+	fmt.Fprintf(&src, "%s var<storage, read_write> sink: array<f32>;\n", c.bind())
+	src.WriteString("struct VOut { @builtin(position) pos: vec4<f32>, @location(0) uv: vec2<f32>, @location(1) @interpolate(flat) id: u32 }\n")
+	nEP := 1 + r.intn(3)
+	stages := []int{stCompute, stVertex, stFragment}
+	wgOverride := ""
+	if withOverrides > 0 && r.chance(0.5) {
+		src.WriteString("override wgx: u32 = 8u;\n")
+		wgOverride = "wgx"
+	}
+	for e := 0; e < nEP; e++ {
+		st := stages[r.intn(len(stages))]
+		var body strings.Builder
+		used := 0
+		for _, f := range frags {
+			if f.stages&st != 0 && f.body != "" && (r.chance(0.6) || used == 0) {
+				body.WriteString(f.body)
+				used++
+			}
+		}
+		ind := func(s string) string {
+			return "  " + strings.ReplaceAll(strings.TrimRight(s, "\n"), "\n", "\n  ") + "\n"
+		}
+		switch st {
+		case stCompute:
+			wg := "64"
+			if wgOverride != "" {
+				wg = wgOverride
+			} else if r.chance(0.3) {
+				wg = "8, 4, 2"
+			}
+			fmt.Fprintf(&src, "@compute @workgroup_size(%s)\nfn cs_%d(@builtin(global_invocation_id) gid: vec3<u32>, @builtin(local_invocation_index) lid: u32) {\n  var acc: f32 = f32(lid);\n  let idx = gid.x;\n%s  sink[idx] = acc;\n}\n", wg, e, ind(body.String()))
+		case stVertex:
+			fmt.Fprintf(&src, "@vertex\nfn vs_%d(@builtin(vertex_index) vi: u32, @location(0) pos: vec3<f32>, @location(1) uv: vec2<f32>) -> VOut {\n  var acc: f32 = pos.x;\n  let idx = vi;\n%s  var o: VOut;\n  o.pos = vec4<f32>(pos * acc, 1.0);\n  o.uv = uv + vec2<f32>(acc);\n  o.id = idx;\n  return o;\n}\n", e, ind(body.String()))
+		case stFragment:
+			fmt.Fprintf(&src, "@fragment\nfn fs_%d(in: VOut) -> @location(0) vec4<f32> {\n  var acc: f32 = in.uv.x;\n  let idx = in.id;\n%s  return vec4<f32>(acc, in.uv, 1.0);\n}\n", e, ind(body.String()))
+		}
+	}
+	return proto.Source{Name: name, WGSL: src.String()}
+}
+
+// composerPrograms returns the generated part of the workload for this seed.
+func composerPrograms(seed uint64) []proto.Source {
+	n := envInt("VERIF_COMPOSED", 96)
+	var out []proto.Source
+	for i := 0; i < n; i++ {
+		r := newRng(seed, 0xC0DE0000+uint64(i))
+		mode := 0
+		switch {
+		case i%3 == 1:
+			mode = 1
+		case i%3 == 2:
+			mode = 2
+		}
+		out = append(out, composeProgram(r, fmt.Sprintf("composed-%d-s%d-m%d", i, seed, mode), mode))
+	}
+	return out
+}
